@@ -442,6 +442,14 @@ class PVLEncoder(object):
         """Returns a ``str`` formatted as a PVL Time based
         on the *value* object according to the rules of this encoder.
         """
+        offset = value.utcoffset()
+        if offset is not None and offset != datetime.timedelta(0):
+            # PVL times are UTC, and there is no syntax for an offset.
+            raise ValueError(
+                "PVL cannot represent a time zone offset, and this time "
+                f"is not in UTC: {value}"
+            )
+
         s = f"{value:%H:%M}"
 
         if value.microsecond:
@@ -788,7 +796,7 @@ class ODLEncoder(PVLEncoder):
                 f"have a timezone offset: {value}"
             )
 
-        t = super().encode_time(value)
+        t = super().encode_time(value.replace(tzinfo=None))
 
         if value.utcoffset() == datetime.timedelta():
             return t + "Z"
